@@ -115,6 +115,8 @@ AGG_LISTS = {
     'AND': ((), (True, True, True, True)),      # nothing short-circuits
     'OR': ((), (False, False, False, False)),
 }
+DECIDING = {'AND': (False, False, False, False),
+            'OR': (True, True, True, True)}
 AGG_RANGES = ('SUM', 'AVERAGE', 'MIN', 'MAX', 'CONCAT', 'NPV', 'AND', 'OR')
 
 
@@ -611,27 +613,38 @@ def gen_c(shard, tier):
                                                  rname)}
     if name not in AGG_RANGES:
         return
-    for r, c in _shapes(tier):
-        for pos in range(r * c):
-            for code in CODES:
-                cells = [fcall.native(fill[k % len(fill)])
-                         for k in range(r * c)]
-                cells[pos] = E(code)
-                arr = ['array', [cells[k * c:(k + 1) * c] for k in range(r)]]
-                variants = [('call', fixed + [arr]),
-                            ('range', fixed + [arr])]
-                if deep(tier):
-                    variants.append(('scalar+range',
-                                     fixed + [fcall.native(fill[0]), arr]))
-                for rname, args in variants:
-                    yield {
-                        'g': 'c', 'fn': name, 'form': 'call', 'args': args,
-                        'route': 'call' if rname == 'call' else 'formula',
-                        'hows': ['lit'] * len(args), 'judge': 'propagate',
-                        'tags': ['grp:c', 'fn:' + name, 'shape:range',
-                                 'route:' + rname],
-                        'key': 'C07/c/%s/range/%dx%d/cell=%d/err=%s/route=%s'
-                               % (name, r, c, pos, code, rname)}
+    # (AND / OR: also with members that would decide the result on their
+    # own - FALSE for AND, TRUE for OR - before and after the error)
+    fills = [('', fill)]
+    if name in DECIDING:
+        fills.append(('deciding/', DECIDING[name]))
+    for fname, fill_ in fills:
+        for r, c in _shapes(tier):
+            for pos in range(r * c):
+                for code in CODES:
+                    cells = [fcall.native(fill_[k % len(fill_)])
+                             for k in range(r * c)]
+                    cells[pos] = E(code)
+                    arr = ['array', [cells[k * c:(k + 1) * c]
+                                     for k in range(r)]]
+                    variants = [('call', fixed + [arr]),
+                                ('range', fixed + [arr])]
+                    if deep(tier):
+                        variants.append(('scalar+range',
+                                         fixed + [fcall.native(fill[0]),
+                                                  arr]))
+                    for rname, args in variants:
+                        yield {
+                            'g': 'c', 'fn': name, 'form': 'call',
+                            'args': args,
+                            'route': 'call' if rname == 'call' else 'formula',
+                            'hows': ['lit'] * len(args), 'judge': 'propagate',
+                            'tags': ['grp:c', 'fn:' + name, 'shape:range',
+                                     'route:' + rname] + (
+                                ['fill:deciding'] if fname else []),
+                            'key': 'C07/c/%s/range/%s%dx%d/cell=%d/err=%s/'
+                                   'route=%s' % (name, fname, r, c, pos,
+                                                 code, rname)}
     # an error inside a range and a second, different error in a scalar
     # argument, in both orders: the leftmost one wins wherever it sits
     for r, c in _shapes(tier):
